@@ -429,7 +429,10 @@ Dispatch(g, st, b) ==
         ELSE IF b = 34 THEN PushByte(st, 34)
         ELSE IF b = 48 THEN PushByte(st, 0)
         ELSE IF b = 120 THEN [st EXCEPT !.mode = "EscX", !.n = 0, !.uv = 0]
-        ELSE IF b = 117 THEN [st EXCEPT !.mode = "EscU0"]
+        \* \u{...} only in string literals: in a character literal it is an invalid escape (the project pins this:
+        \* tests/samples/invalid/unicode_escape_in_char.pn must give E162, tests/parsing.rs)
+        ELSE IF b = 117 THEN (IF st.q = 39 THEN [Note(st, 162, st.eb, e1, st.ec, c1) EXCEPT !.mode = "Str"]
+                              ELSE [st EXCEPT !.mode = "EscU0"])
         \* a backslash just before the end of the line: E161, and the literal is not closed on this line
         ELSE IF b = 10 THEN LET st1 == Note(st, 161, st.eb, st.pos, st.ec, st.cpos)
                             IN NewLine(Push(st1, LiteralItem(st1, FALSE, st.pos, st.cpos)))
